@@ -23,9 +23,13 @@ def run(ctx):
     def once():
         r = ctx.mc("MC_C19", "MC_C19.cfg", "mutation space and validity classification", workers=4)
         muts = r.tagged("MUT")
-        singles = []
+        singles, related = [], []
         for m in muts:
             mm = m["m"]
+            if mm["kind"] == "pair":     # two related fields extreme at once (enumerated by the model, not sampled)
+                related.append([{"kind": "field", "fmt": mm["fmt"], "field": mm["field"], "value": mm["value"], "where": mm["where"]},
+                                {"kind": "field", "fmt": mm["fmt"], "field": mm["field2"], "value": mm["value2"], "where": mm["where"]}])
+                continue
             if mm["fmt"] == "par2" and mm["field"].startswith("recv.") and mm["where"] == "index":
                 continue
             singles.append(({k: mm[k] for k in ("kind", "fmt", "field", "value", "where")}, m["valid"]))
@@ -35,6 +39,9 @@ def run(ctx):
                 cases.append({"muts": [mu], "valid": valid, "data": d})
             if mu["field"] == "recv.exps_vdm_singular":
                 cases.append({"muts": [mu], "valid": valid, "data": "two02"})      # the two slices whose constants make the system singular
+        for i, pr in enumerate(related):
+            if ctx.thorough or i % 3 == ctx.seed % 3:       # quick: a third of the cross product, rotating with the seed
+                cases.append({"muts": pr, "valid": False, "data": "intact"})
         npairs = 20000 if ctx.thorough else 700
         rr = random.Random(ctx.seed * 7 + 1)
         for _ in range(npairs):
